@@ -47,6 +47,8 @@ ALLOWED_PANIC = {
     ("src/checks/unused_vars.rs", "add_binding"): (1, "scopes.last_mut().expect(..): scope stack non-empty"),
     ("src/checks/unused_vars.rs", "pop_scope"): (1, "scopes.pop().expect(..): push/pop paired"),
     ("src/checks/unused_vars.rs", "visit_fun_info"): (1, "type_param_info.pop().unwrap(): pushed at the start of the same visit"),
+    ("src/format.rs", "apply_span_edits"): (1, "result.replace_range(edit.start_offset..edit.end_offset, ..): the edits are token / comment spans of the text they are applied to, sorted and applied back to front (the span helpers are under contract in units fmtedits / fmtspans)"),
+    ("src/format.rs", "wrap_long_signatures"): (1, "result.replace_range(start..end, ..): start / end are positions of the signature's tokens in the same text"),
     ("src/parser.rs", "require_a_token"): (1, "prev_token.expect(..): reached only after at least one token was consumed"),
     ("src/parser.rs", "check_required_token"): (1, "prev_token.expect(..): as above"),
     ("src/parser.rs", "parse_float"): (1, "text.parse::<f64>().unwrap() on a token matched by the float regex"),
@@ -150,6 +152,11 @@ BOUNDED = [
      "bound": "%d generated programs (type hints of every built-in constructor with 0..3 arguments in annotation, return, parameter and generic position against literals of every shape; match shapes; enum / struct / type-parameter corner cases; truncated inputs): check, format and reftest-ast must not crash on any" % len(_MATRIX),
      "expect": {}},
 ]
+sys.path.insert(0, os.path.dirname(os.path.abspath(__file__)))
+import binding_shapes  # noqa: E402
+BOUNDED.append({"name": "binding_shapes", "kind": "frontend-nopanic", "props": ["C01"], "input": binding_shapes.PROGRAMS, "n_inputs": len(binding_shapes.PROGRAMS),
+                "commands": ["check", "format", "reftest-ast", "run"],
+                "bound": "%d programs that bind names in unusual ways (the discard name `_` in every binding position, repeated names, names of prelude definitions and built-in types, assignment to names that are not local): check, format, reftest-ast and run end without a crash" % len(binding_shapes.PROGRAMS), "expect": {}})
 BOUNDED.append({"name": "moderately_nested_sources", "kind": "frontend-nopanic", "props": ["C01"], "input": common.MODERATE_SOURCES, "n_inputs": len(common.MODERATE_SOURCES),
                 "bound": "%d programs nested 40 deep (brackets, blocks, function literals) or with chains of 60 to 100 operators / calls / else-if branches: check, format and reftest-ast end without a crash" % len(common.MODERATE_SOURCES), "expect": {}})
 for _dn, _dt in sorted(common.DEEP_SOURCES.items()):
